@@ -110,6 +110,7 @@ type hGen struct {
 	forceSmallCache bool
 	nsNames         []string
 	defNS           bool // the first namespace is `default`, and policies in it often leave the namespace field out
+	bareDefault     bool // no pod of `default` ever spells its namespace (manifests written for `kubectl apply` without -n)
 	odd             bool // some questions cannot be answered (a port given by name), some egress rules name their port
 }
 
@@ -402,7 +403,7 @@ func (g *hGen) mkBANP(name string) *apisv1a.BaselineAdminNetworkPolicy {
 
 func (g *hGen) podName() string {
 	ns := g.ns()
-	if g.defNS && ns == "default" && g.r.chance(1, 3) {
+	if g.defNS && ns == "default" && (g.bareDefault || g.r.chance(1, 3)) {
 		ns = "" // a pod manifest without the namespace field: for the engine a pod of its own ("/p1"), evaluated with the default namespace object
 	}
 	return fmt.Sprintf("%s/p%d", ns, g.r.intn(g.podN))
@@ -725,6 +726,7 @@ func genHistory(r *rng, n int) *history {
 	if g.defNS = r.chance(1, 5); g.defNS {
 		g.nsNames = []string{"default", "ns1", "ns2"}
 	}
+	g.bareDefault = g.defNS && r.chance(1, 2)
 	g.odd = r.chance(1, 5)
 	g.weights[0] += 2 // a history always has pods
 	g.weights[2]++    // and namespaces
